@@ -306,8 +306,12 @@ class Universe:
             return f
         return None
 
-    def _trip(self, f):
+    def _trip(self, f, undo=None):
         self.cut_hit = True
+        if undo is not None:
+            # the operation took effect and now raises: with retry it may be attempted again, so for the
+            # per-run bookkeeping of the monitor it has not been performed (the store effect stays)
+            self.log("undo", k=undo[0], n=undo[1])
         self.log("cut", k=f["at"], mode=f["mode"])
         if f["mode"] == "dead":
             self.dead = True
@@ -404,7 +408,7 @@ class Universe:
                         v = norm_term(v)
                     U.log("read", n=n, v=enc(v))
                     if f:
-                        U._trip(f)
+                        U._trip(f, ("read", n))
                     return v
 
             def _write(self, value):
@@ -424,7 +428,7 @@ class Universe:
                     U.rank[n] = U.clock
                     U.log("write", n=n, v=value if _is_term(value) else T(-2, 0, []), r=U.clock)
                     if f:
-                        U._trip(f)
+                        U._trip(f, ("write", n))
 
             def _mtime(self):
                 n = self.n
@@ -489,7 +493,7 @@ class Universe:
                         U.rank[sd] = U.clock
                     U.log("end", n=c, v=v, sv=sv)
                     if fl:
-                        U._trip(fl)
+                        U._trip(fl, ("call", c))
                     return v
 
             f.__name__ = f.__qualname__ = f"f{c}"
